@@ -104,7 +104,8 @@ def main(tier):
                key="views|is_empty is not count() == 0", detail=names, nontrivial=("view", "is_empty"))
     f = prog.fns.get("<crate::id::NodeId as core::fmt::Display>::fmt")
     if run.ob("views", "Display for NodeId exists", f is not None, key="views|Display missing"):
-        reads = [s for s in rules.field_sites(prog, "crate::id::NodeId") if s["fn"] == f["key"]]
+        cone = rules.Index(prog).reachable([f["key"]])          # fmt and the crate-local helpers it goes through
+        reads = [s for s in rules.field_sites(prog, "crate::id::NodeId") if s["fn"] in cone]
         flds = sorted({s["field"] for s in reads})
         run.ob("views", "Display for NodeId formats index1 only", flds == ["index1"], key="views|Display for NodeId reads %s" % flds, detail=flds, nontrivial=("view", "display"))
     run.extra["address_model"] = "element i of a slice lives at start + i * size_of::<T>() and distinct allocations are disjoint (language guarantees)"
